@@ -496,7 +496,7 @@ func (x *Explorer) svcEvent() (gw.Action, bool) {
 			x.changePolicy(name(n))
 		}
 		a.Ev, a.Text, a.Abs = "reaccess", "", sn+"\treaccess"
-	case k < 5 && x.P.Deletes && !(x.P.Clean && (x.anyOutstanding(name(n)) || hasRefs(c) || x.referenced(n))):
+	case (k < 5 || (k < 8 && x.P.Resets)) && x.P.Deletes && !(x.P.Clean && (x.anyOutstanding(name(n)) || hasRefs(c) || x.referenced(n))):
 		// (clean mode: no delete while a request for the resource is outstanding — recorded finding KF-P1)
 		a.Ev, a.Text, a.Abs = "delete", "", sn+"\tdelete"
 		x.Truth[name(n)] = nil
